@@ -720,6 +720,20 @@ func (e *Env) evalCall(x *ast.CallExpr) TV {
 				e.fail(x, "fresh() needs an old state")
 			}
 			return boolTV(le(e.vc.allocOf(e.old), r))
+		case "allocated":
+			// allocated(p): p is below the allocation pointer of the state the clause is evaluated in (so the next object
+			// allocated differs from it). Used for "the new object is distinct from those collected so far".
+			a := e.eval(x.Args[0])
+			var r string
+			switch v := a.V.(type) {
+			case Ptr:
+				r = v.Base
+			case *SliceV:
+				r = v.Arr
+			default:
+				r = a.term()
+			}
+			return boolTV(lt(r, e.vc.allocOf(e.st)))
 		case "unchangedExcept":
 			// unchangedExcept(s, lo, hi): the backing array of s is unchanged since old() outside s[lo:hi]
 			a := e.eval(x.Args[0])
@@ -840,7 +854,7 @@ func (e *Env) callMethod(x *ast.CallExpr, recv TV, name string) TV {
 	}
 	if _, isIface := under(recv.T).(*types.Interface); isIface {
 		ikey := "(" + types.TypeString(types.Unalias(recv.T), nil) + ")." + name
-		if ct, ok := e.vc.eng.Contracts[ikey]; ok && ct.Pure {
+		if ct := e.vc.eng.lookupContract(ikey); ct != nil && ct.Pure {
 			it := under(recv.T).(*types.Interface)
 			for i := 0; i < it.NumMethods(); i++ {
 				if it.Method(i).Name() == name {
